@@ -9,11 +9,17 @@
     Payment hashes, HTLC identities (channel, htlc id), payment secrets and purposes are interned
     to [Z]. The outcome of [inbound_payment::verify] for the part (part A of the model) is an input
     of [Recv] ([auth], [min_cltv]). Monitor updates complete synchronously (the
-    [pending_claiming_payments] window is empty between operations). Not modelled: keysend without
-    payment secret, phantom payments, BOLT 12 contexts, trampoline receive, skimmed fees
-    ([allow_underpay]), odd custom TLVs (only the multiset of even ones matters for acceptance).
+    [pending_claiming_payments] window is empty between operations). A part carries both the amount
+    actually received ([value]) and the amount the sender's onion names ([sender_intended_value]);
+    they differ when the previous hop skimmed a fee and the channel accepts underpaying HTLCs
+    ([skim], [underpay] of [Recv]) or when the previous hop overpays. The five comparisons that
+    decide "underpaid", "already complete", "complete now", "still complete at a tick" and "the
+    amount to claim is not the announced one" are NOT written here: they are the definitions of
+    Gen/InboundChecks.v, regenerated from the Rust source on every run (rs2v, anchored expressions).
+    Not modelled: keysend without payment secret, phantom payments, BOLT 12 contexts, trampoline
+    receive, odd custom TLVs (only the multiset of even ones matters for acceptance).
     No proofs in this file. *)
-From LdkV Require Import Prim.U64 Gen.Consts Gen.ConstsC04.
+From LdkV Require Import Prim.U64 Prim.Rs2vLib Gen.Consts Gen.ConstsC04 Gen.InboundChecks.
 Open Scope Z_scope.
 
 (** [LocalHTLCFailureReason] of a failed-back part *)
@@ -48,6 +54,8 @@ Definition init (h : Z) : state := {| claimable := []; height := h |}.
 Inductive op : Type :=
 | Recv (hash pid onion_cltv cltv value intended : Z) (fl : fields) (purpose : Z)
        (auth : bool) (min_cltv : option Z)
+       (skim : option Z)      (* counterparty_skimmed_fee_msat of the update_add_htlc *)
+       (underpay : bool)      (* accept_underpaying_htlcs of the channel it arrived on *)
 | Tick
 | Block (h : Z)
 | Claim (hash : Z) (custom_tlvs_known : bool)
@@ -109,8 +117,8 @@ Definition check_incoming_mpp_part (parts : list part) (pf : fields) (new : part
   else
     let total := pt_intended new + sum_intended parts in
     if MAX_VALUE_MSAT <=? total then None
-    else if f_total pf <=? total - pt_intended new then None
-    else if f_total pf <=? total then
+    else if mpp_already_complete total (pt_intended new) (f_total pf) then None
+    else if mpp_complete_on_arrival total (f_total pf) then
       let parts1 := parts ++ [new] in
       let amount := sum_value parts1 in
       Some (sort_parts (map (set_tvr amount) parts1), true)
@@ -118,11 +126,11 @@ Definition check_incoming_mpp_part (parts : list part) (pf : fields) (new : part
 
 (** a received final-hop HTLC: onion-level checks, [verify] result, [handle_claimable_htlc] *)
 Definition recv (s : state) (hash pid onion_cltv cltv value intended : Z) (fl : fields) (purpose : Z)
-    (auth : bool) (min_cltv : option Z) : state * list out :=
+    (auth : bool) (min_cltv : option Z) (skim : option Z) (underpay : bool) : state * list out :=
   let h := height s in
   if cltv <? onion_cltv then (s, [OFailPart pid F_FinalIncorrectCLTVExpiry])
   else if cltv <=? h + HTLC_FAIL_BACK_BUFFER + 1 then (s, [OFailPart pid F_PaymentClaimBuffer])
-  else if value <? intended then (s, [OFailPart pid F_FinalIncorrectHTLCAmount])
+  else if final_hop_underpaid underpay intended value skim then (s, [OFailPart pid F_FinalIncorrectHTLCAmount])
   else if negb auth then (s, [OFailPart pid F_IncorrectPaymentDetails])
   else if match min_cltv with Some d => cltv <? h + d | None => false end
        then (s, [OFailPart pid F_IncorrectPaymentDetails])
@@ -155,7 +163,7 @@ Definition tick_payment (kv : Z * payment) : option (Z * payment) * list out :=
   | _ =>
       let parts' := map tick_part (py_parts e) in
       let timed_out := existsb (fun p => MPP_TIMEOUT_TICKS <=? pt_ticks p) parts' in
-      if f_total (py_fields e) <=? sum_intended parts' then
+      if mpp_complete_at_tick (sum_intended parts') (f_total (py_fields e)) then
         (Some (hash, {| py_purpose := py_purpose e; py_fields := py_fields e; py_parts := parts' |}), [])
       else if timed_out then (None, map (fun p => OFailPart (pt_id p) F_MPPTimeout) parts')
       else (Some (hash, {| py_purpose := py_purpose e; py_fields := py_fields e; py_parts := parts' |}), [])
@@ -212,7 +220,7 @@ Definition claim (s : state) (hash : Z) (known : bool) : state * list out :=
             (* a part was failed back since PaymentClaimable ([amt <> exp]), or the parts disagree on
                the received total: the payment can no longer be claimed, every remaining part is
                failed back *)
-            if valid && (amt =? exp) then
+            if valid && negb (claim_amount_mismatch amt expected) then
               (s', OClaimed hash amt (map pt_id parts) :: map (fun p => OFulfill (pt_id p)) parts)
             else (s', map (fun p => OFailPart (pt_id p) F_IncorrectPaymentDetails) parts)
         end
@@ -228,8 +236,8 @@ Definition fail_back (s : state) (hash : Z) : state * list out :=
 
 Definition step (s : state) (o : op) : state * list out :=
   match o with
-  | Recv hash pid onion_cltv cltv value intended fl purpose auth min_cltv =>
-      recv s hash pid onion_cltv cltv value intended fl purpose auth min_cltv
+  | Recv hash pid onion_cltv cltv value intended fl purpose auth min_cltv skim underpay =>
+      recv s hash pid onion_cltv cltv value intended fl purpose auth min_cltv skim underpay
   | Tick => let '(m, outs) := map_payments tick_payment (claimable s) in
             ({| claimable := m; height := height s |}, outs)
   | Block h => let '(m, outs) := map_payments (block_payment h) (claimable s) in
